@@ -452,19 +452,25 @@ func (mbox *MailboxView) staticNumSet(numSet imap.NumSet) imap.NumSet {
 		return mbox.searchRes
 	}
 
+	// Resolving "*" may produce ranges which overlap or are out of order, so
+	// the result is re-built instead of being patched in-place.
 	switch numSet := numSet.(type) {
 	case imap.SeqSet:
 		max := uint32(len(mbox.l))
-		for i := range numSet {
-			r := &numSet[i]
+		var static imap.SeqSet
+		for _, r := range numSet {
 			staticNumRange(&r.Start, &r.Stop, max)
+			static.AddRange(r.Start, r.Stop)
 		}
+		return static
 	case imap.UIDSet:
 		max := uint32(mbox.uidNext) - 1
-		for i := range numSet {
-			r := &numSet[i]
+		var static imap.UIDSet
+		for _, r := range numSet {
 			staticNumRange((*uint32)(&r.Start), (*uint32)(&r.Stop), max)
+			static.AddRange(r.Start, r.Stop)
 		}
+		return static
 	}
 
 	return numSet
